@@ -81,6 +81,9 @@ def pairs() -> dict:
         "create_study/get_all_studies": (("create_new_study", ["MINIMIZE"], "fresh"), ("get_all_studies",)),
         "delete/create_trial": (("delete_study", "S1"), ("create_new_trial", "S1", None)),
         "delete/create_study_same_name": (("delete_study", "S1"), ("create_new_study", ["MINIMIZE"], "NAME1")),
+        # the other worker's FIRST call after a completed delete is a read of something immutable
+        "delete/get_directions": (("delete_study", "S1"), ("get_study_directions", "S1")),
+        "delete/get_name": (("delete_study", "S1"), ("get_study_name_from_id", "S1")),
         "study_attr/study_attr": (("set_study_user_attr", "S0", "a", "A1"), ("set_study_user_attr", "S0", "b", "B1")),
         "study_attr/read": (("set_study_system_attr", "S0", "a", "A1"), ("get_study_system_attrs", "S0")),
         # the first call is REJECTED (error path) while the second worker's write lands between its append and its read-back
@@ -174,10 +177,14 @@ def timed(client, op: tuple, bind: X.Binding, thread: str) -> dict:
     return ev
 
 
-def read_ops(sc: dict, model: RefStorage) -> list[tuple]:
+def read_ops(sc: dict, model: RefStorage, kind: str = "") -> list[tuple]:
     ops = [("get_all_studies",), ("get_all_trials", sc["S0"], None, "tuple", True), ("get_all_trials", sc["S1"], None, "tuple", True),
            ("get_study_user_attrs", sc["S0"]), ("get_study_system_attrs", sc["S0"]), ("get_trial", sc["T0"]), ("get_trial", sc["T1"]),
            ("get_study_id_from_name", "dup"), ("get_study_id_from_name", sc["NAME1"])]
+    if "cached" not in kind:
+        # (_CachedStorage keeps name/directions per study id for ever; this harness recycles scenes by deleting their studies and
+        # SQLite re-issues the ids: that is finding F11, judged under C08, not a statement about the pair under test)
+        ops += [("get_study_directions", sc["S1"]), ("get_study_name_from_id", sc["S1"]), ("get_study_directions", sc["S0"]), ("get_study_name_from_id", sc["S0"])]
     return ops
 
 
@@ -281,6 +288,11 @@ def judge(ctx: Ctx, events: list, model0: RefStorage, bind0: X.Binding, kind: st
 
 
 def explore(ctx: Ctx, s: sched.Sched, kind: str, two: bool, pname: str, pair: tuple) -> None:
+    if "cached" in kind and pname in ("delete/get_directions", "delete/get_name"):
+        # _CachedStorage serves name/directions per study id from its cache for ever; with this harness's recycled scenes
+        # (delete + SQLite id reuse) the answer is a previous scene's: finding F11, judged under C08
+        ctx.count("cells_skipped_cached_immutable_study_info")
+        return
     w = World(kind, two)
     extra_codes: list = []
     try:
@@ -365,7 +377,7 @@ def explore(ctx: Ctx, s: sched.Sched, kind: str, two: bool, pname: str, pair: tu
                 w = World(kind, two)
                 continue
             events = [evs["a"], evs["b"]] + [evs[k] for k in sorted(evs) if k not in ("a", "b")]
-            for rop in read_ops(sc, w.model):
+            for rop in read_ops(sc, w.model, w.kind):
                 events.append(timed(w.c1 if len(events) % 2 else w.c2, rop, w.bind, "R"))
             case = {"driver": "single_preemption", "backend": kind, "two_storage_objects": w.c2 is not w.c1, "pair": pname,
                     "paused_at": None if target is None else f"{target[0].co_qualname}:{target[1]}#{target[2]}", "journal_aged": aged, "seed": ctx.seed}
@@ -466,7 +478,7 @@ def soak(ctx: Ctx, s: sched.Sched, kind: str, two: bool, idx: int) -> None:
             ctx.count("soak_hung")
             return
         # quiescent reads
-        for rop in read_ops(sc, w.model):
+        for rop in read_ops(sc, w.model, w.kind):
             events.append(timed(w.c2, rop, w.bind, "R"))
         events.sort(key=lambda e: e["call"])
         ctx.count("soak_histories")
@@ -596,7 +608,7 @@ def process_soak(ctx: Ctx, kind: str, idx: int) -> None:
                     ev["out"] = ("ok", pickle.loads(base64.b64decode(ev["out"][1]))) if ev["out"][0] == "ok_pickled" else tuple(ev["out"])
                 events.append(ev)
         del rng
-        for rop in read_ops(sc, w.model):
+        for rop in read_ops(sc, w.model, w.kind):
             events.append(timed(w.c1, rop, w.bind, "R"))
         events.sort(key=lambda e: e["call"])
         ctx.count("process_soak_histories")
@@ -622,7 +634,7 @@ def run(ctx: Ctx) -> None:
         names = list(P)
         core = [(0, pn) for pn in names]  # in-memory: every pair, every tier
         for ci, pns in ((2, ["create/create", "create/create_2studies", "claim/claim", "attr/attr_other_key", "finish/attr", "create_study/create_study_same_name", "delete/create_trial",
-                             "rejected_attr/create", "rejected_create_study/create"]),
+                             "rejected_attr/create", "rejected_create_study/create", "delete/get_directions", "delete/get_name"]),
                         (6, ["create_study/create_study_same_name", "create/create", "claim/claim"]),
                         (4, ["create/read", "create_finished_template/read", "read/read_after_foreign_write", "finish/attr"]),
                         (8, ["claim/claim", "create/create", "read/read_after_foreign_write"]),
